@@ -40,3 +40,25 @@ def make_document(rng: random.Random, *, canonical_only: bool = False, **kw):
         if not cst.has_error(text2):
             text, canonical = text2, False
     return text, doc, canonical
+
+
+def mixed_keys(dv, npath: str) -> dict:
+    """Key attributes for attributes written both as an explicit set and through dotted
+    bindings (`a = { .. }; a.x = ..;`): legal Nix, two structures inside the library."""
+    from nmverif.oracle import editmodel as M
+    out = {"mixed_on_path": "no", "doc_mixed": "no"}
+    try:
+        if dv.target is None:
+            return out
+        if A.doc_has_mixed(dv):
+            out["doc_mixed"] = "yes"
+        depth, segs = M.parse_npath(npath)
+        if depth:
+            lists = [dv.layers[-depth]] if 0 < depth <= len(dv.layers) else []
+        else:
+            lists = [dv.target.bindings]
+        if any(A.mixed_on_path(bl, segs) for bl in lists):
+            out["mixed_on_path"] = "yes"
+    except Exception:  # noqa: BLE001 - malformed paths have no such attribute
+        pass
+    return out
